@@ -9,6 +9,7 @@ import (
 	"sort"
 	"strconv"
 	"strings"
+	"sync/atomic"
 	"testing"
 	"time"
 )
@@ -164,31 +165,32 @@ type ReplayFile struct {
 }
 
 type WorkerResult struct {
-	Property    string         `json:"property"`
-	Worker      int            `json:"worker"`
-	Runs        int            `json:"runs"`
-	Nontrivial  int            `json:"nontrivial"`
-	Steps       int            `json:"steps"`
-	MultiPicks  int            `json:"multi_picks"`
-	SimTimeS    float64        `json:"sim_time_s"`
-	WallS       float64        `json:"wall_s"`
-	Probes      map[string]int `json:"probes"`
-	Faults      map[string]int `json:"faults"`
-	Sketch      []uint64       `json:"sketch"` // k smallest distinct trace hashes of non-trivial runs
-	SketchK     int            `json:"sketch_k"`
-	Samples     []any          `json:"samples"`
-	Known       map[string]int `json:"known"`
+	Property    string            `json:"property"`
+	Worker      int               `json:"worker"`
+	Runs        int               `json:"runs"`
+	Nontrivial  int               `json:"nontrivial"`
+	Steps       int               `json:"steps"`
+	MultiPicks  int               `json:"multi_picks"`
+	SimTimeS    float64           `json:"sim_time_s"`
+	WallS       float64           `json:"wall_s"`
+	Probes      map[string]int    `json:"probes"`
+	Faults      map[string]int    `json:"faults"`
+	Sketch      []uint64          `json:"sketch"` // k smallest distinct trace hashes of non-trivial runs
+	SketchK     int               `json:"sketch_k"`
+	Samples     []any             `json:"samples"`
+	Known       map[string]int    `json:"known"`
 	KnownWhat   map[string]string `json:"known_what"`
-	StepLimited int            `json:"step_limited"`
-	DetChecks   int            `json:"determinism_checks"`
-	NonDet      string         `json:"nondeterminism,omitempty"`
-	Level       string         `json:"level"`
-	Rule        string         `json:"rule"`
-	Real        []string       `json:"real"`
-	Stub        []string       `json:"stub"`
-	Assumptions []string       `json:"assumptions"`
-	Violation   *ReplayFile    `json:"violation,omitempty"`
-	ReplayPath  string         `json:"replay_path,omitempty"`
+	StepLimited int               `json:"step_limited"`
+	DetChecks   int               `json:"determinism_checks"`
+	NonDet      string            `json:"nondeterminism,omitempty"`
+	Stalled     string            `json:"stalled,omitempty"`
+	Level       string            `json:"level"`
+	Rule        string            `json:"rule"`
+	Real        []string          `json:"real"`
+	Stub        []string          `json:"stub"`
+	Assumptions []string          `json:"assumptions"`
+	Violation   *ReplayFile       `json:"violation,omitempty"`
+	ReplayPath  string            `json:"replay_path,omitempty"`
 }
 
 func envInt(name string, def int) int {
@@ -387,6 +389,41 @@ func workerMain(t *testing.T, p *Prop, tier string) {
 		}
 		return
 	}
+	// determinism self-test aid: one line per run (run index, trace hash, tape length, violation class)
+	var dumpTraces *os.File
+	if dp := os.Getenv("VERIF_DUMP_TRACES"); dp != "" {
+		f, err := os.Create(dp)
+		if err != nil {
+			fmt.Printf("HARNESS-ERROR cannot create %s: %v\n", dp, err)
+			os.Exit(4)
+		}
+		defer f.Close()
+		dumpTraces = f
+	}
+	// real-time watchdog, outside every bubble: a bubble whose scheduler makes no progress (a goroutine
+	// blocked where synctest cannot see it, e.g. on a sync.Once's internal mutex) would otherwise hang
+	// the worker. Exit code 5 = stalled (harness trouble, never a violation).
+	var curRun atomic.Int64
+	go func() {
+		limit := time.Duration(envInt("VERIF_STALL_S", 240)) * time.Second
+		last, lastAt := Progress.Load(), time.Now()
+		for {
+			time.Sleep(5 * time.Second)
+			if p := Progress.Load(); p != last {
+				last, lastAt = p, time.Now()
+				continue
+			}
+			if time.Since(lastAt) > limit {
+				buf := make([]byte, 8<<20)
+				n := runtime.Stack(buf, true)
+				_ = os.WriteFile(filepath.Join(outDir, fmt.Sprintf("stall-%d.txt", worker)), buf[:n], 0o644)
+				res.Stalled = fmt.Sprintf("run %d made no scheduler progress for %v of real time", curRun.Load(), limit)
+				write()
+				fmt.Printf("HARNESS-STALL worker=%d %s\n", worker, res.Stalled)
+				os.Exit(5)
+			}
+		}
+	}()
 	for i := 0; ; i++ {
 		if perWorkerMax > 0 && i >= perWorkerMax {
 			break
@@ -395,6 +432,8 @@ func workerMain(t *testing.T, p *Prop, tier string) {
 			break
 		}
 		run := worker + i*nworkers
+		curRun.Store(int64(run))
+		Progress.Add(1)
 		seed := mixSeed(base, p.ID, run)
 		if traceRuns {
 			fmt.Fprintf(os.Stderr, "RUN %d\n", run)
@@ -402,6 +441,13 @@ func workerMain(t *testing.T, p *Prop, tier string) {
 		avoid := len(known) > 0 && avoidFor(run)
 		out := execOnce(t, p, NewSeeded(seed), tier, avoid, false)
 		res.Runs++
+		if dumpTraces != nil {
+			v := "-"
+			if out.Viol != nil {
+				v = out.Viol.Class
+			}
+			fmt.Fprintf(dumpTraces, "%d %016x %d %s\n", run, out.Trace, len(out.Tape), v)
+		}
 		res.Steps += out.Steps
 		res.MultiPicks += out.MultiPicks
 		res.SimTimeS += out.SimTime.Seconds()
